@@ -158,6 +158,7 @@ class InternalCompiler(Compiler):
         erets = list(map(lambda e: self.compile_expr(qc, e), expr.args))
 
         # 2. Get a destination qubit
+        fresh = dest is None
         if dest is None:
             dest = qc.get_free_ancilla()
 
@@ -171,7 +172,8 @@ class InternalCompiler(Compiler):
 
         # 5. Mark ancilla every argument and return
         [qc.mark_ancilla(eret) for eret in erets]
-        self.expqmap[expr] = dest
+        if fresh:
+            self.expqmap[expr] = dest
 
         return dest
 
@@ -182,6 +184,7 @@ class InternalCompiler(Compiler):
         erets = list(map(lambda e: self.compile_expr(qc, e), expr.args))
 
         # 2. Get a destination qubit
+        fresh = dest is None
         if dest is None:
             dest = qc.get_free_ancilla()
 
@@ -199,7 +202,8 @@ class InternalCompiler(Compiler):
 
         # 5. Mark ancilla every argument and return
         [qc.mark_ancilla(eret) for eret in erets]
-        self.expqmap[expr] = dest
+        if fresh:
+            self.expqmap[expr] = dest
 
         return dest
 
@@ -224,12 +228,14 @@ class InternalCompiler(Compiler):
             return eret
         # 3. Otherwise map to a new qubit and perform the X
         else:
+            fresh = dest is None
             if dest is None:
                 dest = qc.get_free_ancilla()
             qc.cx(eret, dest)
             qc.x(dest)
             qc.mark_ancilla(eret)
-            self.expqmap[expr] = dest
+            if fresh:
+                self.expqmap[expr] = dest
 
             return dest
 
@@ -259,7 +265,8 @@ class InternalCompiler(Compiler):
             else:
                 d = self.compile_expr(qc, e, dest=d)
 
-        self.expqmap[expr] = d
+        if dest is None:
+            self.expqmap[expr] = d
         return d
 
     def compile_symbol(self, qc, expr, dest=None, sym=None) -> int:
